@@ -23,7 +23,7 @@ for d in "$@"; do
     echo "--- (2) apply patch + build"
     (cd $wt && git apply $d/patch.diff && go build ./... && echo BUILD-OK)
     echo "--- (3) demo with patch (expect FAIL)"
-    (cd $wt && TMPDIR=/tmp/confirm-tmp-$id timeout 600 go test -vet=off -count=1 -run 'TestSeeded' $pkg 2>&1 | grep -E "^(--- FAIL|FAIL|ok|PASS)" | head -5)
+    (cd $wt && TMPDIR=/tmp/confirm-tmp-$id timeout 600 go test -vet=off -count=1 -run 'TestSeeded' $pkg 2>&1 | grep -a -E "^(--- FAIL|FAIL|ok|PASS)" | head -5)
     echo "--- (4) existing suite with patch (demo removed; expect all ok)"
     rm -f $wt/$dst
     (cd $wt && TMPDIR=/tmp/confirm-tmp-$id go test -vet=off -count=1 -timeout 25m ./... 2>&1 | grep -v "no test files" | tail -12)
